@@ -147,6 +147,19 @@ HllArray<A>* HllArray<A>::newHll(const void* bytes, size_t len, const A& allocat
     auxHashMap = AuxHashMap<A>::deserialize(auxDataStart, len - offset, lgK, auxCount, auxLgIntArrSize, comapctFlag, allocator);
     aux_ptr = aux_hash_map_ptr(auxHashMap, auxHashMap->make_deleter());
   }
+  if (tgtHllType == target_hll_type::HLL_4) { // the AUX_TOKEN registers and the aux hash map entries must correspond
+    uint32_t numAuxTokens = 0;
+    for (uint32_t slot = 0; slot < (1u << lgK); ++slot) {
+      const uint8_t byte = data[hll_constants::HLL_BYTE_ARR_START + (slot >> 1)];
+      if (((slot & 1) ? (byte >> 4) : (byte & hll_constants::loNibbleMask)) == hll_constants::AUX_TOKEN) {
+        if (auxHashMap != nullptr) auxHashMap->mustFindValueFor(slot);
+        ++numAuxTokens;
+      }
+    }
+    if (numAuxTokens != auxCount) {
+      throw std::invalid_argument("Aux count in HLL_4 sketch image does not match the number of exception registers");
+    }
+  }
 
   HllArray<A>* sketch = HllSketchImplFactory<A>::newHll(lgK, tgtHllType, startFullSizeFlag, allocator);
   sketch->putCurMin(curMin);
@@ -237,6 +250,21 @@ HllArray<A>* HllArray<A>::newHll(std::istream& is, const A& allocator) {
 
   if (!is.good())
     throw std::runtime_error("error reading from std::istream"); 
+
+  if (tgtHllType == target_hll_type::HLL_4) { // the AUX_TOKEN registers and the aux hash map entries must correspond
+    const AuxHashMap<A>* auxHashMap = sketch->getAuxHashMap();
+    uint32_t numAuxTokens = 0;
+    for (uint32_t slot = 0; slot < (1u << lgK); ++slot) {
+      const uint8_t byte = sketch->hllByteArr_[slot >> 1];
+      if (((slot & 1) ? (byte >> 4) : (byte & hll_constants::loNibbleMask)) == hll_constants::AUX_TOKEN) {
+        if (auxHashMap != nullptr) auxHashMap->mustFindValueFor(slot);
+        ++numAuxTokens;
+      }
+    }
+    if (numAuxTokens != auxCount) {
+      throw std::invalid_argument("Aux count in HLL_4 sketch image does not match the number of exception registers");
+    }
+  }
 
   return sketch_ptr.release();
 }
